@@ -25,3 +25,4 @@ CFG = dict(
      # 16 processors, 16 processes would oversubscribe them fourfold and mostly produce sequential histories
      shards_thorough=4,
      timeout_quick=900, timeout_thorough=3000)
+CFG["rule"] += ' Concurrent programs run under the watchdog: a program none of whose goroutines returns (all blocked inside the structure) is reported as a violation, not a timeout.'
